@@ -106,6 +106,7 @@ static void run_case(const struct h_case * c)
         if (h_weq(l, 0, "nlists")) { nlists = a; continue; }
         if (h_weq(l, 0, "cmpmode")) { cmpmode = a; continue; }
         if (h_weq(l, 0, "vsign")) { vsign = a < 0 ? -1 : 1; continue; }
+        if (h_weq(l, 0, "mixedconcat")) continue;   /* marks cases outside the model (see checks/c13.py) */
         if (h_weq(l, 0, "offs")) { for (k = 1; k < l->nw && k <= MAXL; k++) offs[k - 1] = (int)h_int(l, k) ? 1 : 0; continue; }
         if (!started) {
             for (k = 0; k < nlists; k++)
